@@ -321,6 +321,9 @@ func (g *Gen) storeVal() *uint256.Int {
 	}
 }
 
+// LogGadget is gLog for use as an Extra emitter (workloads that want more logs).
+func LogGadget(g *Gen) { g.gLog() }
+
 func (g *Gen) gLog() {
 	n := g.R.Intn(5)
 	for i := 0; i < n; i++ {
